@@ -108,6 +108,10 @@ def e1_case(ctx, m, args):
     impl = lpdump.dump_impl(m.solver, e1err.colkey(m, ids))
     req = e1err.request("kmpe", m, ids, args)
     d = e1.compare(ctx, "E1_kMinPathError_LP", "kmpe", m, impl, req, args)
+    try:
+        e1err.theorem_premises(ctx, "E1_kMinPathError_LP", "kmpepremises", m, ids, args)
+    except Exception as e:
+        ctx.report(f"E1_kMinPathError_LP: optimality-premises check crashed: {e!r}", {"engine": "E1_kMinPathError_LP"}, concrete=False)
     if d and ctx.engines.get("E1_kMinPathError_LP", {}).get("disagreements", 0) <= 3:   # keep room for concrete failing inputs
         ctx.report("E1 correspondence broken: LP of kMinPathError differs from ErrEnc.encode_kmpe: " + "; ".join(d[:3]),
                    {"class": "kMinPathError", "args": errlib.describe(args), "diff": d[:12]}, concrete=False)
